@@ -7,16 +7,11 @@ CONSTANTS
   BadNames <- MCBad
   Templates <- MCTemplates
   Paths <- MCPaths
-  MaxAdds = 2
-  MaxDepth = 2
-  MaxPathLen = 2
+  LFBlind <- MCTrue
+  MaxAdds = 0
+  MaxDepth = 1
+  MaxPathLen = 1
   Depth = 0
   Rollback = TRUE
   ResetOnAdd = TRUE
-INVARIANT FindIsIdealDFS
-INVARIANT XWalkIsBestMatch
-INVARIANT XNoLeak
-INVARIANT RejectIsNoOp
-INVARIANT TreeIsRef
 INVARIANT XSplitSound
-INVARIANT EmitTable
